@@ -45,6 +45,13 @@ def run(chk):
             t['id'] = i['id'] = len(traces) + 1
             traces.append(t)
             infos.append(i)
+        if scen in ('tunnel', 'http'):
+            # proxy chaining: the relay runs through ProxyPoolPlugin / TcpUpstreamConnectionHandler (the upstream is another proxy)
+            t4, _d4, i4 = cc.replay_all(behs[1::3], scen, n, units, seed=seed + 17 + 3, framings=framings, work='proxy-pool')
+            for t, i in zip(t4, i4):
+                t['id'] = i['id'] = len(traces) + 1
+                traces.append(t)
+                infos.append(i)
         if scen == 'tunnel':
             # the same schedules through the other relay implementation of the code base: a work class built on
             # BaseTcpTunnelHandler / BaseTcpServerHandler (examples/https_connect_tunnel.py), on the same executor
@@ -74,7 +81,7 @@ def run(chk):
             sig = cc.classify(clause, traces[tid - 1], idx)
             info = infos[tid - 1]
             chk.violation(sig, '%s schedule %s (unit %d bytes%s): %s' % (
-                scen + ('/threaded' if info.get('mode') == 'threaded' else '') + ('/BaseTcpTunnelHandler' if info.get('work') == 'example-tunnel' else ''), ' '.join(info['schedule']), info['U'], ', ' + info['framing'] if info['framing'] else '', clause),
+                scen + ('/threaded' if info.get('mode') == 'threaded' else '') + ('/BaseTcpTunnelHandler' if info.get('work') == 'example-tunnel' else '/ProxyPoolPlugin' if info.get('work') == 'proxy-pool' else ''), ' '.join(info['schedule']), info['U'], ', ' + info['framing'] if info['framing'] else '', clause),
                 {'info': info, 'rejected_event_index': idx, 'events': traces[tid - 1]['ev'][max(0, idx - 12):idx + 1]})
         for info, tr in list(zip(infos, traces))[:2]:
             chk.sample({'scenario': info['scen'], 'unit_bytes': info['U'], 'schedule': info['schedule'], 'events': len(tr['ev']),
